@@ -267,6 +267,7 @@ def _locs_slice(
     sep: str = ',',
     neg: bool = False,
     lead: bool = True,
+    trail: bool = True,
 ) -> tuple[fstloc, fstloc, str | None, tuple[int, int] | None]:
     r"""Slice locations for both copy and delete. Parentheses should already have been taken into account for the bounds
     and location. This function will find the separator if present and go from there for the trailing trivia. If trivia
@@ -293,6 +294,8 @@ def _locs_slice(
     - `neg`: Whether to return a different `del_loc` including negative space if `trivia` has it..
     - `lead`: If `False` then no leading comments or space are selected regardless of `trivia`. Meant for a zero-length
         insertion location, where anything leading belongs to the following element and nothing is being replaced.
+    - `trail`: If `False` then no trailing comments or space are selected regardless of `trivia`. Meant for a zero-length
+        insertion location, where anything trailing belongs to the previous element and nothing is being replaced.
 
     **Returns:**
     - (`copy_loc`, `del_loc`, `del_indent`, `sep_end_pos`):
@@ -392,6 +395,10 @@ def _locs_slice(
     if not lead:
         ld_comms = 'none'
         ld_space = ld_neg = False
+
+    if not trail:
+        tr_comms = 'none'
+        tr_space = tr_neg = False
 
     ld_text_pos, ld_space_pos, indent = leading_trivia(lines, bound_ln, bound_col,  # start of text / space
                                                        first_ln, first_col, ld_comms, ld_space)
@@ -819,7 +826,8 @@ def put_slice_sep_begin(  # **WARNING!** Here there be dragons! TODO: this reall
     copy_loc, del_loc, del_indent, _ = _locs_slice(lines, is_first, is_last, loc_first, loc_last,
                                                    bound_ln, bound_col, bound_end_ln, bound_end_col,
                                                    fst.FST.get_option('trivia', options), sep, True,  # is_del)
-                                                   not is_ins)  # pure insertion replaces nothing so leading comments and space, which belong to the following element, must not be selected to be overwritten
+                                                   not is_ins,  # pure insertion replaces nothing so leading comments and space, which belong to the following element, must not be selected to be overwritten
+                                                   not is_ins or bool(sep))  # likewise the line comment of the previous element and what follows it, for now only for sequences without separator (decorator_list, generators, ifs), the line comment is kept on the line of the previous element below
 
     put_ln, put_col, put_end_ln, put_end_col = del_loc
 
@@ -852,6 +860,7 @@ def put_slice_sep_begin(  # **WARNING!** Here there be dragons! TODO: this reall
         put_lines = fst_._lines
         skip = 1
         post_indent = None  # this is a FULL indent in self, not a partial indent in fst_
+        is_prev_comment = False  # if the line comment of the previous element was copied to the start of fst_
 
         if re_line_end_cont_or_comment.search(put_lines[l := len(put_lines) - 1],  # if last line of fst_ is a comment or line continuation without a newline then add one (don't need to check pars for last line)
                                               0 if l > fst_last.end_ln else fst_last.end_col).group(1):
@@ -859,7 +868,7 @@ def put_slice_sep_begin(  # **WARNING!** Here there be dragons! TODO: this reall
 
         # adjust line interface between target previous element and slice first element, specifically if there is a line comment on put start line AESTHETIC
 
-        if is_ins and start and sep == ',':  # there is a previous element, only do this for comma-separated sequences (this last one is a quick HACK condition, TODO: figure out better)
+        if is_ins and start and sep in (',', ''):  # there is a previous element, only do this for comma-separated sequences and those without separator (this last one is a quick HACK condition, TODO: figure out better)
             if not is_dictlike:
                 prev_ln, prev_col, prev_end_ln, _ = locabst.loc_head(start - 1)
             else:
@@ -869,11 +878,16 @@ def put_slice_sep_begin(  # **WARNING!** Here there be dragons! TODO: this reall
             if (put_ln == put_end_ln == prev_end_ln  # put starts and ends on previous element end line?
                 and (len(put_lines) > 1 or re_empty_line.match(lines[prev_ln], 0, prev_col))  # slice being put is not single non-newlined line or previous element starts its own line?
                 and (l := lines[put_end_ln]).startswith('#', put_end_col)  # comment at end of put line?
-                and bound_end_ln > put_end_ln  # and the edit is within bounds
+                and (bound_end_ln > put_end_ln or not sep)  # and the edit is within bounds
             ):
                 comment = re_line_end_ws_comment.search(l, put_col).group()  # get whole comment including leading space because get trivia location ate that
-                put_end_ln += 1  # overwrite comment on put because we copy it into slice body
-                put_end_col = 0
+                is_prev_comment = True
+
+                if sep:
+                    put_end_ln += 1  # overwrite comment on put because we copy it into slice body
+                    put_end_col = 0
+                else:  # without a separator just the comment is overwritten, the end of the line is dealt with below as if there was no comment
+                    put_end_col = len(l)
 
                 ast_ = fst_.a  # TODO: this shouldn't be needed, need to preserve container start because if not and it moves onto the next line then redent_lns() below can make its column go negative
 
@@ -916,7 +930,7 @@ def put_slice_sep_begin(  # **WARNING!** Here there be dragons! TODO: this reall
 
             put_col = copy_col  # maybe leave the space between previous separator or element and self intact
 
-            if not sep and not _re_open_delim_or_space.match(lines[put_ln], put_col - 1):  # if not doing separator and immediately follows non-space-non-delimiter open there will be no end pass to separate these if there is no space between these so we need to insert space here
+            if not sep and not _re_open_delim_or_space.match(lines[put_ln], put_col - 1) and not is_prev_comment:  # if not doing separator and immediately follows non-space-non-delimiter open there will be no end pass to separate these if there is no space between these so we need to insert space here (unless what follows is the line comment of the previous element as it was)
                 fst_._put_src(' ', 0, 0, 0, 0, False)
 
         if not put_lines[-1]:  # slice put ends with pure newline?
